@@ -74,3 +74,712 @@ Proof.
     induction srcs as [|[g l] tl IH]; [reflexivity|]. inversion F; subst. cbn [map]. unfold dir_leaf at 1. cbn [fst snd].
     rewrite leaf_set_backward_same by assumption. f_equal. apply IH. assumption.
 Qed.
+
+(* ------------------------------------------------------------------ a cursor (with or without filter) as a list cursor *)
+Section ListCursor.
+  Variable rest : leaf -> list ev.
+  Variable ok : leaf -> Prop.
+  Variable bk : bool.
+  Hypothesis Hget : forall l, ok l -> ok (fst (l_get l)) /\ rest (fst (l_get l)) = rest l /\ snd (l_get l) = hd_error (rest l).
+  Hypothesis Hnext : forall l, ok l -> ok (l_next l) /\ rest (l_next l) = tl (rest l).
+  Variable f : option flt.
+  (* a property of the tree every Get establishes (used for "the leaf stands settled on a record") *)
+  Variable sett : mtree -> Prop.
+  Hypothesis Hsett : forall t, wf rest ok bk t -> sett (fst (mx_get t)).
+
+  Definition acc (x : item) : bool := match f with None => true | Some fl => accepts fl x end.
+  (* settling: skip to the first accepted event *)
+  Fixpoint drop_rej (L : list item) : list item :=
+    match L with [] => [] | x :: r => if acc x then L else drop_rej r end.
+  (* one step of Offset's loop: Next, then the settling Get *)
+  Definition step (L : list item) : list item := drop_rej (tl L).
+
+  (* the cursor stands for the list L of what the tree will still deliver; a valid buffer is the head of L *)
+  Definition cinv (c : cursor) (L : list item) : Prop :=
+    wf rest ok bk (cu_tree c) /\ content rest bk (cu_tree c) = L /\ cu_flt c = f /\
+    (cu_valid c = true -> f <> None /\ sett (cu_tree c) /\ exists x r, L = x :: r /\ cu_le c = Some x /\ acc x = true).
+
+  Lemma drop_rej_filter L : filter acc (drop_rej L) = filter acc L.
+  Proof. induction L as [|x r IH]; [reflexivity|]. cbn. destruct (acc x) eqn:E; [cbn; rewrite E; reflexivity|exact IH]. Qed.
+  Lemma drop_rej_length L : (length (drop_rej L) <= length L)%nat.
+  Proof. induction L as [|x r IH]; cbn; [lia|]. destruct (acc x); cbn; lia. Qed.
+  Lemma drop_rej_head L : match drop_rej L with [] => True | x :: _ => acc x = true end.
+  Proof. induction L as [|x r IH]; cbn; [exact I|]. destruct (acc x) eqn:E; [exact E|exact IH]. Qed.
+  Lemma drop_rej_settled L : match L with [] => True | x :: _ => acc x = true end -> drop_rej L = L.
+  Proof. destruct L as [|x r]; [reflexivity|]. cbn. intros ->. reflexivity. Qed.
+  Lemma drop_rej_idem L : drop_rej (drop_rej L) = drop_rej L.
+  Proof. apply drop_rej_settled. apply drop_rej_head. Qed.
+
+  Lemma cu_next_spec c L : cinv c L -> cinv (cu_next c) (tl L) /\ cu_valid (cu_next c) = false /\ cu_n (cu_next c) = cu_n c.
+  Proof.
+    intros (W & C & F & V). destruct (next_spec rest ok bk Hget Hnext _ W) as (W1 & C1 & _).
+    unfold cu_next, cinv. cbn [cu_tree cu_flt cu_valid cu_le cu_n]. rewrite F.
+    assert (Vf : (match f with Some _ => false | None => cu_valid c end) = false).
+    { destruct f; [reflexivity|]. destruct (cu_valid c); [|reflexivity]. destruct (V eq_refl) as (N & _). congruence. }
+    rewrite Vf. repeat split; auto; try congruence; discriminate.
+  Qed.
+
+  Lemma fi_get_spec fl : f = Some fl -> forall L fuel c, cinv c L -> (length L < fuel)%nat ->
+    exists c', fi_get fuel fl c = Some (c', hd_error (drop_rej L)) /\ cinv c' (drop_rej L) /\ cu_n c' = cu_n c /\
+               sett (cu_tree c') /\ (cu_valid c' = true \/ drop_rej L = []).
+  Proof.
+    intros Ef. induction L as [|x r IH]; intros fuel c Inv Hf.
+    - destruct Inv as (W & C & F & V). destruct fuel as [|fl']; [lia|]. cbn [fi_get].
+      destruct (cu_valid c) eqn:Ev; [destruct (V eq_refl) as (_ & _ & x & r & E & _); discriminate|].
+      pose proof (Hsett _ W) as St.
+      destruct (get_spec rest ok bk Hget _ W) as (W1 & C1 & G1 & _). destruct (mx_get (cu_tree c)) as [t r0] eqn:Eg. cbn [fst snd] in *.
+      rewrite C in G1. cbn in G1. subst r0. eexists. split; [reflexivity|]. cbn [drop_rej].
+      split; [|split; [reflexivity|split; [exact St|right; reflexivity]]]. unfold cinv. cbn [cu_tree cu_flt cu_valid cu_le].
+      split; [exact W1|]. split; [congruence|]. split; [exact F|discriminate].
+    - pose proof Inv as (W & C & F & V). destruct fuel as [|fl']; [cbn in Hf; lia|]. cbn [fi_get].
+      destruct (cu_valid c) eqn:Ev.
+      + destruct (V eq_refl) as (_ & St & x' & r' & E & El & Ea). injection E as <- <-. cbn [drop_rej]. rewrite Ea.
+        exists c. rewrite El. split; [reflexivity|]. split; [exact Inv|]. split; [reflexivity|]. split; [exact St|left; exact Ev].
+      + pose proof (Hsett _ W) as St.
+        destruct (get_spec rest ok bk Hget _ W) as (W1 & C1 & G1 & _). destruct (mx_get (cu_tree c)) as [t r0] eqn:Eg. cbn [fst snd] in *.
+        rewrite C in G1. cbn in G1. subst r0. cbn [drop_rej].
+        assert (Ea : accepts fl x = acc x) by (unfold acc; rewrite Ef; reflexivity). rewrite Ea.
+        destruct (acc x) eqn:Ex.
+        * eexists. split; [reflexivity|]. split; [|split; [reflexivity|split; [exact St|left; reflexivity]]].
+          unfold cinv. cbn [cu_tree cu_flt cu_valid cu_le]. split; [exact W1|]. split; [congruence|]. split; [exact F|].
+          intros _. split; [congruence|]. split; [exact St|]. exists x, r. auto.
+        * set (c1 := mkCur t (cu_flt c) (Some x) false (cu_n c)).
+          assert (I1 : cinv c1 (x :: r)).
+          { unfold cinv, c1. cbn [cu_tree cu_flt cu_valid cu_le]. split; [exact W1|]. split; [congruence|]. split; [exact F|discriminate]. }
+          destruct (cu_next_spec c1 _ I1) as (I2 & _ & N2). cbn [tl] in I2.
+          destruct (IH fl' (cu_next c1) I2) as (c' & G & I' & N' & S' & V'); [cbn in Hf; lia|].
+          exists c'. split; [exact G|]. split; [exact I'|]. split; [rewrite N', N2; reflexivity|]. split; [exact S'|exact V'].
+  Qed.
+
+  Lemma cu_get_spec L fuel c : cinv c L -> (length L < fuel)%nat ->
+    exists c', cu_get fuel c = Some (c', hd_error (drop_rej L)) /\ cinv c' (drop_rej L) /\ cu_n c' = cu_n c /\
+               sett (cu_tree c') /\ (f <> None -> cu_valid c' = true \/ drop_rej L = []).
+  Proof.
+    intros Inv Hf. pose proof Inv as (W & C & F & V). unfold cu_get. rewrite F. destruct f as [fl|] eqn:Ef.
+    - destruct (fi_get_spec fl Ef L fuel c Inv Hf) as (c' & G & I' & N' & S' & V'). exists c'. auto.
+    - assert (D : drop_rej L = L) by (clear - Ef; induction L as [|x r IH]; [reflexivity|]; cbn; unfold acc; rewrite Ef; reflexivity).
+      rewrite D. pose proof (Hsett _ W) as St.
+      destruct (get_spec rest ok bk Hget _ W) as (W1 & C1 & G1 & _). destruct (mx_get (cu_tree c)) as [t r0] eqn:Eg. cbn [fst snd] in *.
+      eexists. split; [rewrite G1, C; reflexivity|]. split; [|split; [reflexivity|split; [exact St|congruence]]].
+      unfold cinv, cu_with_tree. cbn [cu_tree cu_flt cu_valid cu_le]. split; [exact W1|]. split; [congruence|]. split; [congruence|].
+      intros Hv. destruct (V Hv) as (N & _). congruence.
+  Qed.
+
+  Fixpoint iter_step (k : nat) (L : list item) : list item :=
+    match k with O => L | S k' => iter_step k' (step L) end.
+  Lemma step_length L : (length (step L) <= length L)%nat.
+  Proof. unfold step. pose proof (drop_rej_length (tl L)). destruct L; cbn in *; lia. Qed.
+  Lemma iter_step_nil k : iter_step k [] = [].
+  Proof. induction k; [reflexivity|exact IHk]. Qed.
+
+  (* the loop of Offset: k times Next + settling Get (it stops early at the end, where further steps change nothing) *)
+  Lemma offset_loop_spec : forall k L fuel c p0, cinv c L -> (length L < fuel)%nat ->
+    exists c' p', offset_loop fuel k c p0 = Some (c', p') /\ cinv c' (iter_step k L) /\ cu_n c' = cu_n c /\
+      (k <> O -> sett (cu_tree c') /\ (f <> None -> cu_valid c' = true \/ iter_step k L = [])).
+  Proof.
+    induction k as [|k IH]; intros L fuel c p0 Inv Hf.
+    - exists c, p0. split; [reflexivity|]. split; [exact Inv|]. split; [reflexivity|]. intros N. congruence.
+    - cbn [offset_loop iter_step]. destruct (cu_next_spec c L Inv) as (I1 & _ & N1).
+      destruct (cu_get_spec (tl L) fuel (cu_next c) I1) as (c1 & G & I2 & N2 & S2 & V2); [destruct L; cbn in *; lia|].
+      rewrite G. fold (step L) in *. destruct (step L) as [|x r] eqn:Es.
+      + cbn [hd_error]. exists c1, None. split; [reflexivity|]. rewrite iter_step_nil. split; [exact I2|]. split; [congruence|].
+        intros _. split; [exact S2|]. intros _. right. reflexivity.
+      + cbn [hd_error]. pose proof (step_length L) as Hl. rewrite Es in Hl.
+        destruct (IH (x :: r) fuel c1 (cu_current_pos c1) I2) as (c' & p' & G' & I' & N' & V'); [lia|].
+        exists c', p'. split; [exact G'|]. split; [exact I'|]. split; [congruence|]. intros _.
+        destruct k as [|k']; [|apply V'; discriminate].
+        cbn [offset_loop] in G'. injection G' as <- _. cbn [iter_step]. split; [exact S2|exact V2].
+  Qed.
+
+  (* the page loop: up to `limit` accepted events *)
+  Lemma page_loop_spec : forall limit L fuel c, cinv c L -> (length L < fuel)%nat ->
+    exists c', page_loop fuel limit c = Some (c', firstn limit (filter acc L)) /\ cu_n c' = cu_n c /\
+      exists L', cinv c' L' /\ (length L' <= length L)%nat.
+  Proof.
+    induction limit as [|lim IH]; intros L fuel c Inv Hf.
+    - exists c. split; [reflexivity|]. split; [reflexivity|]. exists L. split; [exact Inv|lia].
+    - cbn [page_loop]. destruct (cu_get_spec L fuel c Inv Hf) as (c1 & G & I1 & N1 & _ & _). rewrite G.
+      rewrite <- (drop_rej_filter L). pose proof (drop_rej_head L) as Hh. pose proof (drop_rej_length L) as Hl.
+      destruct (drop_rej L) as [|x r] eqn:Ed; cbn [hd_error].
+      + exists c1. split; [reflexivity|]. split; [exact N1|]. exists []. split; [exact I1|cbn; lia].
+      + destruct (cu_next_spec c1 _ I1) as (I2 & _ & N2). cbn [tl] in I2.
+        destruct (IH r fuel (cu_next c1) I2) as (c' & G' & N' & L' & I' & Hl'); [cbn in Hl; lia|].
+        rewrite G'. exists c'. cbn [filter]. rewrite Hh. cbn [firstn]. split; [reflexivity|]. split; [congruence|]. exists L'. split; [exact I'|cbn in Hl; lia].
+  Qed.
+End ListCursor.
+
+(* ------------------------------------------------------------------ list facts about settling and stepping *)
+Definition lastn {A} (k : nat) (l : list A) : list A := skipn (length l - k) l.
+Lemma lastn_app_exact {A} (a b : list A) : lastn (length b) (a ++ b) = b.
+Proof.
+  unfold lastn. rewrite app_length. replace (length a + length b - length b)%nat with (length a + 0)%nat by lia.
+  rewrite skipn_app. rewrite skipn_all2 by lia. replace (length a + 0 - length a)%nat with O by lia. reflexivity.
+Qed.
+Lemma lastn_all {A} k (l : list A) : (length l <= k)%nat -> lastn k l = l.
+Proof. intros H. unfold lastn. replace (length l - k)%nat with O by lia. reflexivity. Qed.
+
+Lemma filter_length_le {A} (p : A -> bool) (l : list A) : (length (filter p l) <= length l)%nat.
+Proof. induction l as [|a l IH]; cbn; [lia|]. destruct (p a); cbn; lia. Qed.
+
+Definition settled_list (f : option flt) (L : list item) : Prop := match L with [] => True | x :: _ => acc f x = true end.
+
+Lemma drop_rej_split f : forall R y R1, drop_rej f R = y :: R1 ->
+  exists P0, R = P0 ++ y :: R1 /\ filter (acc f) P0 = [] /\ acc f y = true.
+Proof.
+  induction R as [|x r IH]; intros y R1 H; [discriminate|]. cbn in H. destruct (acc f x) eqn:E.
+  - injection H as <- <-. exists []. auto.
+  - destruct (IH _ _ H) as (P0 & -> & Hf & Hy). exists (x :: P0). cbn. rewrite E. auto.
+Qed.
+Lemma drop_rej_nil f : forall R, drop_rej f R = [] -> filter (acc f) R = [].
+Proof. intros R H. rewrite <- drop_rej_filter, H. reflexivity. Qed.
+
+(* stepping from a settled list skips exactly one accepted event per step *)
+Lemma iter_step_settled f : forall k L, settled_list f L -> filter (acc f) (iter_step f k L) = skipn k (filter (acc f) L).
+Proof.
+  induction k as [|k IH]; intros L S; [reflexivity|]. cbn [iter_step].
+  rewrite IH by (unfold step; apply drop_rej_head). unfold step. rewrite drop_rej_filter.
+  destruct L as [|x r]; [destruct k; reflexivity|]. cbn in S. cbn [tl filter]. rewrite S. reflexivity.
+Qed.
+(* in general the first step consumes the head whether it is accepted or not *)
+Lemma iter_step_general f k L : filter (acc f) (iter_step f (S k) L) = skipn k (filter (acc f) (tl L)).
+Proof. cbn [iter_step]. rewrite iter_step_settled by (unfold step; apply drop_rej_head). unfold step. rewrite drop_rej_filter. reflexivity. Qed.
+
+(* seek k R: settle, then k-1 steps: the suffix of R that starts at its k-th accepted event *)
+Lemma seek_spec f : forall k R,
+  match iter_step f k (drop_rej f R) with
+  | x :: W => exists P, R = P ++ x :: W /\ acc f x = true /\ length (filter (acc f) P) = k
+  | [] => (length (filter (acc f) R) <= k)%nat
+  end.
+Proof.
+  induction k as [|k IH]; intros R.
+  - cbn [iter_step]. destruct (drop_rej f R) as [|x W] eqn:E.
+    + rewrite (drop_rej_nil f R E). cbn. lia.
+    + destruct (drop_rej_split f R x W E) as (P0 & -> & H0 & Hx). exists P0. rewrite H0. auto.
+  - cbn [iter_step]. unfold step. destruct (drop_rej f R) as [|y R1] eqn:E.
+    + cbn [tl drop_rej]. rewrite iter_step_nil. rewrite (drop_rej_nil f R E). cbn. lia.
+    + destruct (drop_rej_split f R y R1 E) as (P0 & -> & H0 & Hy). cbn [tl]. specialize (IH R1).
+      destruct (iter_step f k (drop_rej f R1)) as [|x W].
+      * rewrite filter_app, H0. cbn. rewrite Hy. cbn. lia.
+      * destruct IH as (P & -> & Hx & Hl). exists (P0 ++ y :: P). rewrite <- app_assoc. cbn. split; [reflexivity|]. split; [exact Hx|].
+        rewrite filter_app, H0. cbn. rewrite Hy. cbn. lia.
+Qed.
+
+Lemma filter_rev_length {A} (p : A -> bool) (l : list A) : length (filter p (rev l)) = length (filter p l).
+Proof.
+  induction l as [|a l IH]; [reflexivity|]. cbn. rewrite filter_app, app_length, IH. cbn. destruct (p a); cbn; lia.
+Qed.
+
+(* going k accepted events back from the end of U and reading forward from there gives the last k accepted events *)
+Lemma seek_back_lastn f (k : nat) (U Z W : list item) x :
+  iter_step f k (drop_rej f (rev U)) = x :: W -> U = rev W ++ x :: Z ->
+  filter (acc f) (x :: Z) = lastn (S k) (filter (acc f) U).
+Proof.
+  intros H E. pose proof (seek_spec f k (rev U)) as S. rewrite H in S. destruct S as (P & HP & Hx & Hl).
+  assert (EU : U = rev W ++ x :: rev P).
+  { rewrite <- (rev_involutive U), HP, rev_app_distr. cbn. rewrite <- app_assoc. reflexivity. }
+  assert (Z = rev P) by (rewrite EU in E; apply app_inv_head in E; congruence). subst Z.
+  rewrite EU. rewrite filter_app.
+  assert (Hk : S k = length (filter (acc f) (x :: rev P))) by (cbn; rewrite Hx; cbn; rewrite filter_rev_length; lia).
+  rewrite Hk. symmetry. apply lastn_app_exact.
+Qed.
+Lemma seek_back_all f (k : nat) (U : list item) :
+  iter_step f k (drop_rej f (rev U)) = [] -> filter (acc f) U = lastn (S k) (filter (acc f) U).
+Proof.
+  intros H. pose proof (seek_spec f k (rev U)) as S. rewrite H in S. rewrite filter_rev_length in S.
+  symmetry. apply lastn_all. lia.
+Qed.
+
+(* ------------------------------------------------------------------ one partition read through the range iterator *)
+Definition sett_l (t : mtree) : Prop :=
+  match t with MLeaf _ (LR j s) => lr_settled j s | _ => True end.
+
+Lemma sett_l_get b : forall t, wf leaf_rest (leaf_ok b) b t -> sett_l (fst (mx_get t)).
+Proof.
+  intros t Wt. destruct t as [g l|a c st e1 e2 le1 le2 bk'].
+  - cbn [mx_get]. destruct l as [m recs ci|j s|j s]; cbn [wf leaf_ok] in Wt; try contradiction.
+    + cbn [l_get]. destruct (ci_get _ ci). exact I.
+    + destruct Wt as (Inv & _). destruct (lr_get_spec j s Inv) as (s' & G & _ & _ & _ & S'). cbn [l_get]. rewrite G. exact S'.
+  - destruct (mx_get_node_st a c st e1 e2 le1 le2 bk') as (a' & b' & st' & f1 & f2 & l1 & l2 & E & _). rewrite E. exact I.
+Qed.
+
+Section Single.
+  Variable g : nat.
+  Variable j : journal.
+  Variable f : option flt.
+  Hypothesis Wj : wf_journal j.
+
+  Definition itm (l : list ev) : list item := map (fun e => (e, g)) l.
+  Definition CI (b : bool) := cinv leaf_rest (leaf_ok b) b f sett_l.
+  Definition single (c : cursor) : Prop := exists s, cu_tree c = MLeaf g (LR j s).
+
+  Lemma single_next c : single c -> single (cu_next c).
+  Proof. intros (s & E). unfold cu_next, single. cbn [cu_tree]. rewrite E. unfold mx_next. cbn. eauto. Qed.
+  Lemma single_mx_get s : exists s', fst (mx_get (MLeaf g (LR j s))) = MLeaf g (LR j s').
+  Proof. cbn. destruct (rj_get j s) as [s' r]. cbn. eauto. Qed.
+  Lemma single_fi_get fl : forall fuel c c' r, single c -> fi_get fuel fl c = Some (c', r) -> single c'.
+  Proof.
+    induction fuel as [|fu IH]; intros c c' r S H; cbn [fi_get] in H.
+    - destruct (cu_valid c); [injection H as <- _; exact S|discriminate].
+    - destruct (cu_valid c); [injection H as <- _; exact S|]. destruct S as (s & E).
+      destruct (single_mx_get s) as (s' & E'). rewrite E in H. destruct (mx_get (MLeaf g (LR j s))) as [t r0]. cbn [fst] in E'. subst t.
+      destruct r0 as [x|]; [|injection H as <- _; unfold single; cbn; eauto].
+      destruct (accepts fl x); [injection H as <- _; unfold single; cbn; eauto|].
+      eapply IH; [|exact H]. apply single_next. unfold single. cbn. eauto.
+  Qed.
+  Lemma single_get fuel c c' r : single c -> cu_get fuel c = Some (c', r) -> single c'.
+  Proof.
+    intros S H. unfold cu_get in H. destruct (cu_flt c) as [fl|]; [eapply single_fi_get; eassumption|].
+    destruct S as (s & E). destruct (single_mx_get s) as (s' & E'). rewrite E in H. destruct (mx_get (MLeaf g (LR j s))) as [t r0].
+    cbn [fst] in E'. subst t. injection H as <- _. unfold single, cu_with_tree. cbn. eauto.
+  Qed.
+  Lemma single_offset_loop fuel : forall k c p c' p', single c -> offset_loop fuel k c p = Some (c', p') -> single c'.
+  Proof.
+    induction k as [|k IH]; intros c p c' p' S H; cbn [offset_loop] in H; [injection H as <- _; exact S|].
+    destruct (cu_get fuel (cu_next c)) as [[c1 [x|]]|] eqn:G; try discriminate.
+    - eapply IH; [|exact H]. eapply single_get; [|exact G]. apply single_next. exact S.
+    - injection H as <- _. eapply single_get; [|exact G]. apply single_next. exact S.
+  Qed.
+  Lemma single_flip b c : single c -> single (cu_set_backward b c).
+  Proof. intros (s & E). unfold single, cu_set_backward, cu_with_tree. cbn [cu_tree]. rewrite E. cbn. eauto. Qed.
+
+  (* a cursor over the single leaf in state s stands for the slice of the flat list at the position of s *)
+  Lemma single_cinv b s le n : lr_inv j s -> j_bk s = b ->
+    CI b (mkCur (MLeaf g (LR j s)) f le false n) (itm (rest_at (flat j) b (lr_pos j s))).
+  Proof.
+    intros Inv B. subst b. unfold CI, cinv. cbn [cu_tree cu_flt cu_valid cu_le wf content leaf_ok].
+    split; [split; [exact Inv|reflexivity]|]. split; [reflexivity|]. split; [reflexivity|discriminate].
+  Qed.
+
+  Lemma rest_at_zip (U : list ev) p : 0 <= p < Z.of_nat (length U) ->
+    exists x, rest_at U true p = x :: rev (firstn (Z.to_nat p) U) /\ rest_at U false p = x :: skipn (Z.to_nat p + 1) U /\
+              U = firstn (Z.to_nat p) U ++ x :: skipn (Z.to_nat p + 1) U.
+  Proof.
+    intros H. destruct (nth_error_lt_some U (Z.to_nat p)) as [x E]; [lia|]. exists x. unfold rest_at.
+    replace (Z.to_nat (p + 1)) with (S (Z.to_nat p)) by lia. rewrite (firstn_S_nth _ _ _ E), rev_app_distr. cbn [rev app].
+    assert (S : skipn (Z.to_nat p) U = x :: skipn (Z.to_nat p + 1) U).
+    { rewrite Nat.add_1_r, <- tl_skipn. pose proof (hd_skipn (Z.to_nat p) U) as Hh. rewrite E in Hh.
+      destruct (skipn (Z.to_nat p) U); [discriminate|]. cbn in Hh. injection Hh as ->. reflexivity. }
+    split; [reflexivity|]. split; [exact S|]. rewrite <- S. symmetry. apply firstn_skipn.
+  Qed.
+
+  (* SetBackward on a single-leaf cursor whose leaf stands settled: the cursor now stands for the slice in the other
+     direction at the same position; a valid buffer stays the head *)
+  Lemma single_flip_spec b c L : CI b c L -> single c -> sett_l (cu_tree c) ->
+    exists p, L = itm (rest_at (flat j) b p) /\ (if b then -1 <= p <= total j - 1 else 0 <= p <= total j) /\
+      CI (negb b) (cu_set_backward (negb b) c)
+         (itm (rest_at (flat j) (negb b) (if negb b then Z.min p (total j - 1) else Z.max p 0))).
+  Proof.
+    intros (Wt & C & F & V) (s & E) St. rewrite E in *. cbn [wf leaf_ok] in Wt. destruct Wt as (Inv & B). cbn [sett_l] in St.
+    change (itm (rest_at (flat j) (j_bk s) (lr_pos j s)) = L) in C. rewrite B in C. exists (lr_pos j s). split; [symmetry; exact C|].
+    pose proof (lr_pos_range j s Inv) as R. rewrite B in R. split; [exact R|].
+    destruct (lr_flip_spec j s Inv St) as (Inv' & B' & P'). rewrite B in *.
+    unfold CI, cinv, cu_set_backward, cu_with_tree. cbn [cu_tree cu_flt cu_valid cu_le]. rewrite E.
+    cbn [mx_set_backward l_set_backward wf leaf_ok].
+    change (content leaf_rest (negb b) (MLeaf g (LR j (jit_set_backward (negb b) s)))) with (itm (rest_at (flat j) (j_bk (jit_set_backward (negb b) s)) (lr_pos j (jit_set_backward (negb b) s)))).
+    rewrite B', P'.
+    split; [split; [exact Inv'|reflexivity]|]. split; [reflexivity|]. split; [exact F|].
+    intros Hv. destruct (V Hv) as (Nf & _ & x & r & EL & El & Ea). split; [exact Nf|].
+    (* a valid buffer: the leaf stands on a record, at position p in range *)
+    assert (Rp : 0 <= lr_pos j s < total j).
+    { rewrite <- C in EL. destruct b.
+      - destruct (Z_lt_dec (lr_pos j s) 0); [rewrite rest_at_bwd_end in EL by lia; discriminate|lia].
+      - destruct (Z_lt_dec (lr_pos j s) (total j)); [lia|]. rewrite rest_at_fwd_end in EL by (unfold total in *; lia). discriminate. }
+    split.
+    - cbn [sett_l]. unfold lr_settled in *. unfold jit_set_backward. destruct (Bool.eqb (j_bk s) (negb b)); [exact St|].
+      cbn [j_ci j_cid]. destruct (j_ci s) as [ci|] eqn:Ec; cbn [option_map ci_set_backward ci_pos]; [exact St|].
+      exfalso. destruct Inv as (W & _). pose proof (lr_eof_pos j s W Ec St) as Pe. rewrite B in Pe. destruct b; lia.
+    - destruct (rest_at_zip (flat j) (lr_pos j s)) as (y & Hb & Hf & _); [unfold total in Rp; lia|].
+      assert (y = fst x).
+      { rewrite <- C in EL. destruct b; [rewrite Hb in EL|rewrite Hf in EL]; cbn in EL; injection EL as <- _; reflexivity. }
+      assert (Hx : x = (y, g)).
+      { rewrite <- C in EL. destruct b; [rewrite Hb in EL|rewrite Hf in EL]; cbn in EL; injection EL as <- _; reflexivity. }
+      destruct b; cbn [negb].
+      + replace (Z.max (lr_pos j s) 0) with (lr_pos j s) by lia. rewrite Hf. cbn [itm map]. eexists _, _. split; [rewrite Hx; reflexivity|]. split; [exact El|exact Ea].
+      + replace (Z.min (lr_pos j s) (total j - 1)) with (lr_pos j s) by lia. rewrite Hb. cbn [itm map]. eexists _, _. split; [rewrite Hx; reflexivity|]. split; [exact El|exact Ea].
+  Qed.
+End Single.
+
+(* ------------------------------------------------------------------ the request: Offset, page, closing State() *)
+Lemma query_tail_part (rest : leaf -> list ev) (ok : leaf -> Prop) (b : bool) (f : option flt) (sett : mtree -> Prop) (Hget : forall l, ok l -> ok (fst (l_get l)) /\ rest (fst (l_get l)) = rest l /\ snd (l_get l) = hd_error (rest l))
+  (Hnext : forall l, ok l -> ok (l_next l) /\ rest (l_next l) = tl (rest l))
+  (Hsett : forall t, wf rest ok b t -> sett (fst (mx_get t))) c L fuel limit :
+  cinv rest ok b f sett c L -> (length L < fuel)%nat ->
+  exists c' ps, (match page_loop fuel limit c with
+                 | None => None
+                 | Some (c2, xs) => match cu_get fuel c2 with None => None | Some (c3, _) => Some (cu_release c3, xs, positions c3) end
+                 end) = Some (c', firstn limit (filter (acc f) L), ps).
+Proof.
+  intros Inv Hf. destruct (page_loop_spec rest ok b Hget Hnext f sett Hsett limit L fuel c Inv Hf) as (c2 & G & _ & L' & I' & Hl).
+  rewrite G. destruct (cu_get_spec rest ok b Hget Hnext f sett Hsett L' fuel c2 I') as (c3 & G3 & _); [lia|]. rewrite G3. eauto.
+Qed.
+
+(* positive offsets, for every tree over contract leaves (merged or not), forward or backward:
+   OFFSET k then a page = the accepted events of the k-fold step of what the cursor stands for *)
+Lemma query_positive (rest : leaf -> list ev) (ok : leaf -> Prop) (b : bool) (f : option flt) (sett : mtree -> Prop) (Hget : forall l, ok l -> ok (fst (l_get l)) /\ rest (fst (l_get l)) = rest l /\ snd (l_get l) = hd_error (rest l))
+  (Hnext : forall l, ok l -> ok (l_next l) /\ rest (l_next l) = tl (rest l))
+  (Hsett : forall t, wf rest ok b t -> sett (fst (mx_get t))) c L fuel (k : nat) limit :
+  cinv rest ok b f sett c L -> (length L < fuel)%nat ->
+  exists c' ps, query fuel c (Z.of_nat k) limit = Some (c', firstn limit (filter (acc f) (iter_step f k L)), ps).
+Proof.
+  intros Inv Hf. unfold query, cu_offset. destruct k as [|k].
+  - cbn [Z.of_nat Z.eqb iter_step]. apply (query_tail_part rest ok b f sett Hget Hnext Hsett); assumption.
+  - destruct (Z.eqb_spec (Z.of_nat (S k)) 0); [lia|]. destruct (Z.gtb_spec (Z.of_nat (S k)) 0); [|lia]. rewrite Nat2Z.id.
+    destruct (offset_loop_spec rest ok b Hget Hnext f sett Hsett (S k) L fuel c None Inv Hf) as (c1 & p1 & G & I1 & _).
+    rewrite G. cbn [option_map fst].
+    assert (Hl : (length (iter_step f (S k) L) < fuel)%nat).
+    { clear - Hf. revert L Hf. induction (S k) as [|n IH]; intros L Hf; [exact Hf|]. cbn [iter_step]. apply IH. pose proof (step_length f L). lia. }
+    apply (query_tail_part rest ok b f sett Hget Hnext Hsett); assumption.
+Qed.
+
+Lemma skipn_nil_length {A} : forall n (l : list A), skipn n l = [] -> (length l <= n)%nat.
+Proof. induction n; destruct l; cbn; intros H; try lia; [discriminate|]. specialize (IHn _ H). lia. Qed.
+
+Section SingleTail.
+  Variable g : nat.
+  Variable j : journal.
+  Variable f : option flt.
+  Hypothesis Wj : wf_journal j.
+
+  Let U := flat j.
+  Let A := filter (acc f) (itm g U).
+
+  Lemma Hg b : forall l, leaf_ok b l -> leaf_ok b (fst (l_get l)) /\ leaf_rest (fst (l_get l)) = leaf_rest l /\ snd (l_get l) = hd_error (leaf_rest l).
+  Proof. exact (leaf_get_spec b). Qed.
+  Lemma Hn b : forall l, leaf_ok b l -> leaf_ok b (l_next l) /\ leaf_rest (l_next l) = tl (leaf_rest l).
+  Proof. exact (leaf_next_spec b). Qed.
+
+  Lemma itm_length l : length (itm g l) = length l.
+  Proof. apply map_length. Qed.
+  Lemma rest_at_length b p : (length (rest_at U b p) <= length U)%nat.
+  Proof. unfold rest_at. destruct b; [rewrite rev_length, firstn_length; lia|rewrite skipn_length; lia]. Qed.
+
+  (* POSITION tail OFFSET -k on one partition, any chunk layout, any filter: the last k accepted events *)
+  Lemma tail_single fuel (k : nat) limit : (length U < fuel)%nat ->
+    exists c' ps, query fuel (mkCur (MLeaf g (LR j (mkJit MaxU64 MaxU32 None false))) f None false 1) (- Z.of_nat k) limit
+                  = Some (c', firstn limit (lastn k A), ps).
+  Proof.
+    intros Hf.
+    assert (Inv0 : lr_inv j (mkJit MaxU64 MaxU32 None false)) by (split; [exact Wj|cbn; unfold MaxU64, MaxU32; lia]).
+    pose proof (single_cinv g j f false _ None 1 Inv0 eq_refl) as I0.
+    rewrite (lr_pos_tail j Wj), rest_at_fwd_end in I0 by (unfold total; lia). cbn [itm map] in I0.
+    set (c0 := mkCur (MLeaf g (LR j (mkJit MaxU64 MaxU32 None false))) f None false 1) in *.
+    destruct k as [|k].
+    - (* no offset: nothing is read at the tail *)
+      unfold query, cu_offset. cbn [Z.of_nat Z.opp Z.eqb].
+      destruct (query_tail_part leaf_rest (leaf_ok false) false f sett_l (Hg false) (Hn false) (sett_l_get false) c0 [] fuel limit I0) as (c' & ps & E); [cbn; lia|].
+      rewrite E. cbn [filter]. exists c', ps. unfold lastn. rewrite Nat.sub_0_r, skipn_all. destruct limit; reflexivity.
+    - unfold query, cu_offset. destruct (Z.eqb_spec (- Z.of_nat (S k)) 0); [lia|]. destruct (Z.gtb_spec (- Z.of_nat (S k)) 0); [lia|].
+      replace (Z.to_nat (- - Z.of_nat (S k))) with (S k) by lia.
+      (* the settling Get at the tail: io.EOF *)
+      destruct (cu_get_spec leaf_rest (leaf_ok false) false (Hg false) (Hn false) f sett_l (sett_l_get false) [] fuel c0 I0) as (c1 & G1 & I1 & N1 & S1 & _); [cbn; lia|].
+      rewrite G1. cbn [drop_rej hd_error] in *.
+      assert (Sg1 : single g j c1) by (eapply single_get; [|exact G1]; unfold single, c0; cbn; eauto).
+      (* SetBackward(true): everything lies before the cursor *)
+      destruct (single_flip_spec g j f false c1 [] I1 Sg1 S1) as (p1 & E1 & R1 & I2). cbn [negb] in I2.
+      assert (P1 : Z.min p1 (total j - 1) = total j - 1).
+      { symmetry in E1. apply map_eq_nil in E1. unfold rest_at in E1. apply skipn_nil_length in E1. unfold total in *. lia. }
+      rewrite P1, rest_at_bwd_all in I2 by (unfold total; lia). fold U in I2.
+      set (c2 := cu_set_backward true c1) in *.
+      assert (Sg2 : single g j c2) by (apply single_flip; exact Sg1).
+      (* Get: the last accepted event; then k times Next + Get *)
+      destruct (cu_get_spec leaf_rest (leaf_ok true) true (Hg true) (Hn true) f sett_l (sett_l_get true) _ fuel c2 I2) as (c3 & G3 & I3 & N3 & S3 & _).
+      { rewrite itm_length, rev_length. exact Hf. }
+      rewrite G3. cbn [Nat.pred].
+      assert (Sg3 : single g j c3) by (eapply single_get; eassumption).
+      destruct (offset_loop_spec leaf_rest (leaf_ok true) true (Hg true) (Hn true) f sett_l (sett_l_get true) k _ fuel c3 (cu_current_pos c3) I3) as (c4 & p4 & G4 & I4 & N4 & S4).
+      { pose proof (drop_rej_length f (itm g (rev U))). rewrite itm_length, rev_length in *. lia. }
+      rewrite G4.
+      assert (Sg4 : single g j c4) by (eapply single_offset_loop; eassumption).
+      assert (St4 : sett_l (cu_tree c4)).
+      { destruct k as [|k']; [cbn in G4; injection G4 as <- _; exact S3|]. apply S4. discriminate. }
+      assert (Nc : cu_n c4 = 1%nat) by (rewrite N4, N3; unfold c2, cu_set_backward, cu_with_tree; cbn [cu_n]; rewrite N1; reflexivity).
+      (* SetBackward(false); iterateToPos is a no-op for one source *)
+      unfold iterate_to_pos. unfold cu_set_backward at 1, cu_with_tree at 1. cbn [cu_n]. rewrite Nc. cbn [Nat.leb orb].
+      destruct (single_flip_spec g j f true c4 _ I4 Sg4 St4) as (p5 & E5 & R5 & I5). cbn [negb] in I5.
+      set (c5 := cu_set_backward false c4) in *.
+      destruct (query_tail_part leaf_rest (leaf_ok false) false f sett_l (Hg false) (Hn false) (sett_l_get false) c5 _ fuel limit I5) as (c' & ps & E).
+      { fold U. rewrite itm_length. pose proof (rest_at_length false (Z.max p5 0)). lia. }
+      change (cu_set_backward false c4) with c5. rewrite E. exists c', ps.
+      assert (EL : filter (acc f) (itm g (rest_at (flat j) false (Z.max p5 0))) = lastn (S k) A); [|rewrite EL; reflexivity]. unfold A. fold U.
+      (* the list argument *)
+      assert (ER : itm g (rev U) = rev (itm g U)) by (unfold itm; apply map_rev). rewrite ER in E5. fold U in E5.
+      destruct (Z_lt_dec p5 0) as [Hp|Hp].
+      + rewrite rest_at_bwd_end in E5 by lia. cbn [itm map] in E5. replace (Z.max p5 0) with 0 by lia. rewrite rest_at_fwd_neg by lia.
+        apply (seek_back_all f k (itm g U) E5).
+      + destruct (rest_at_zip U p5) as (x & Hb & Hfw & HU); [unfold total in R5; fold U in R5; lia|].
+        replace (Z.max p5 0) with p5 by lia. rewrite Hfw. rewrite Hb in E5. cbn [itm map] in *.
+        apply (seek_back_lastn f k (itm g U) _ _ _ E5).
+        unfold itm. rewrite <- map_rev, rev_involutive. rewrite HU at 1. rewrite map_app. reflexivity.
+  Qed.
+End SingleTail.
+
+(* ------------------------------------------------------------------ the cursor newCursor makes *)
+(* sources as newCursor creates them: fresh forward iterators *)
+Definition fresh_leaf (l : leaf) : Prop :=
+  match l with
+  | LMem _ _ c => c = mkCit 0 false
+  | LR j s => wf_journal j /\ s = jit_at 0 0
+  | LP _ _ => False
+  end.
+Definition pos_ok (p : posspec) : Prop :=
+  match p with
+  | PAt m => Forall (fun e => 0 <= fst (snd e) <= MaxU64 /\ 0 <= snd (snd e) <= MaxU32) m
+  | _ => True
+  end.
+
+Lemma ci_set_pos_inv cnt p c : 0 <= cnt -> ci_inv cnt c -> ci_inv cnt (ci_set_pos cnt p c) /\ ci_bk (ci_set_pos cnt p c) = ci_bk c.
+Proof.
+  intros Hc I. unfold ci_set_pos, ci_inv in *. destruct (p =? ci_pos c); [auto|]. cbn [ci_pos ci_bk]. split; [|reflexivity].
+  destruct (Z.gtb_spec p cnt); [destruct (Z.ltb_spec cnt 0)|destruct (Z.ltb_spec p 0)]; lia.
+Qed.
+
+Lemma fresh_leaf_set_pos l cid idx : fresh_leaf l -> 0 <= cid <= MaxU64 -> 0 <= idx <= MaxU32 -> leaf_ok false (l_set_pos cid idx l).
+Proof.
+  destruct l as [m recs c|j s|j s]; cbn [fresh_leaf]; try contradiction.
+  - intros -> Hc Hi. cbn [l_set_pos leaf_ok]. apply ci_set_pos_inv; [lia|]. unfold ci_inv. cbn. lia.
+  - intros (W & ->) Hc Hi. cbn [l_set_pos leaf_ok]. apply lr_init; assumption.
+Qed.
+Lemma fresh_leaf_ok l : fresh_leaf l -> leaf_ok false l.
+Proof.
+  destruct l as [m recs c|j s|j s]; cbn [fresh_leaf]; try contradiction.
+  - intros ->. cbn. unfold ci_inv. cbn. split; [lia|reflexivity].
+  - intros (W & ->). cbn. split; [|reflexivity]. split; [exact W|]. cbn. unfold MaxU64, MaxU32. lia.
+Qed.
+
+Lemma map_leaves_spec h : forall t, fresh false t ->
+  fresh false (mx_map_leaves h t) /\ mx_leaves (mx_map_leaves h t) = map (fun s => (fst s, h (fst s) (snd s))) (mx_leaves t).
+Proof.
+  induction t as [g l|a IHa b IHb st e1 e2 le1 le2 bk']; intros F; [cbn; auto|].
+  cbn in F. destruct F as (Fa & Fb & -> & -> & -> & ->). destruct (IHa Fa) as (F1 & L1). destruct (IHb Fb) as (F2 & L2).
+  cbn [mx_map_leaves mx_leaves fresh]. rewrite L1, L2, map_app. auto 10.
+Qed.
+
+Lemma lookup_pos_in m tag p : lookup_pos m tag = Some p -> In (tag, p) m.
+Proof.
+  induction m as [|[t q] tl IH]; cbn; [discriminate|]. destruct (Nat.eqb_spec t tag); [intros H; injection H as ->; subst; auto|auto].
+Qed.
+
+(* the cursor over 1..49 fresh sources at position p stands for the merge of what its sources deliver from there *)
+Lemma new_cursor_cinv (srcs : list (nat * leaf)) f p : srcs <> [] -> (length srcs < merge_limit)%nat ->
+  Forall (fun s => fresh_leaf (snd s)) srcs -> pos_ok p ->
+  exists c, new_cursor srcs f p = Some c /\ cu_n c = length srcs /\
+    cinv leaf_rest (leaf_ok false) false f sett_l c (content leaf_rest false (cu_tree c)) /\
+    exists h, mx_leaves (cu_tree c) = map (fun s => (fst s, h (fst s) (snd s))) srcs /\
+              forall s, In s srcs -> leaf_ok false (h (fst s) (snd s)) /\
+                (p = PHead -> h (fst s) (snd s) = l_set_pos 0 0 (snd s)) /\ (p = PTail -> h (fst s) (snd s) = l_set_pos MaxU64 MaxU32 (snd s)).
+Proof.
+  intros N Hl F Po. unfold new_cursor. rewrite get_journals_spec by (unfold merge_limit; lia).
+  destruct (Nat.ltb_spec (length srcs) merge_limit); [|lia].
+  destruct (build_tree_spec srcs N) as (t & E & Fr & L). rewrite E.
+  set (h := match p with
+            | PHead => fun (_ : nat) l => l_set_pos 0 0 l
+            | PTail => fun _ l => l_set_pos MaxU64 MaxU32 l
+            | PAt m => fun tag l => match lookup_pos m tag with Some (cid, idx) => l_set_pos cid idx l | None => l end
+            end).
+  assert (Ea : apply_pos p t = mx_map_leaves h t) by (unfold apply_pos, h; destruct p; reflexivity).
+  destruct (map_leaves_spec h t Fr) as (Fr' & L').
+  assert (OK : forall s, In s srcs -> leaf_ok false (h (fst s) (snd s))).
+  { intros s Hs. eapply Forall_forall in F; [|exact Hs]. unfold h. destruct p as [| |m].
+    - apply fresh_leaf_set_pos; [exact F|unfold MaxU64; lia|unfold MaxU32; lia].
+    - apply fresh_leaf_set_pos; [exact F|unfold MaxU64; lia|unfold MaxU32; lia].
+    - destruct (lookup_pos m (fst s)) as [[cid idx]|] eqn:El; [|apply fresh_leaf_ok; exact F].
+      apply lookup_pos_in in El. cbn in Po. eapply Forall_forall in Po; [|exact El]. cbn in Po.
+      apply fresh_leaf_set_pos; [exact F|tauto|tauto]. }
+  eexists. split; [reflexivity|]. cbn [cu_n cu_tree]. split; [reflexivity|]. rewrite Ea. split.
+  - unfold cinv. cbn [cu_tree cu_flt cu_valid cu_le]. split; [|split; [reflexivity|split; [reflexivity|discriminate]]].
+    apply fresh_wf; [exact Fr'|]. rewrite L', L. apply Forall_forall. intros s Hs. apply in_map_iff in Hs.
+    destruct Hs as (s0 & <- & Hs0). cbn. apply OK. exact Hs0.
+  - exists h. rewrite L', L. split; [reflexivity|]. intros s Hs. split; [apply OK; exact Hs|].
+    unfold h. split; intros ->; reflexivity.
+Qed.
+
+(* ------------------------------------------------------------------ +k then -k on one partition *)
+Lemma split_unique f : forall (A1 A2 B1 B2 : list item) a b,
+  A1 ++ a :: B1 = A2 ++ b :: B2 -> acc f a = true -> acc f b = true ->
+  length (filter (acc f) A1) = length (filter (acc f) A2) -> A1 = A2 /\ a = b /\ B1 = B2.
+Proof.
+  induction A1 as [|x A1 IH]; intros A2 B1 B2 a b E Ha Hb Hl.
+  - destruct A2 as [|y A2]; [cbn in E; injection E as -> ->; auto|].
+    cbn in E. injection E as <- _. cbn in Hl. rewrite Ha in Hl. cbn in Hl. lia.
+  - destruct A2 as [|y A2].
+    + cbn in E. injection E as -> _. cbn in Hl. rewrite Hb in Hl. cbn in Hl. lia.
+    + cbn in E. injection E as -> E. cbn in Hl. destruct (acc f y); cbn in Hl.
+      * destruct (IH A2 B1 B2 a b E Ha Hb) as (-> & -> & ->); [lia|auto].
+      * destruct (IH A2 B1 B2 a b E Ha Hb) as (-> & -> & ->); [lia|auto].
+Qed.
+
+Lemma iter_step_head f : forall k L, settled_list f L -> settled_list f (iter_step f k L).
+Proof. induction k as [|k IH]; intros L S; [exact S|]. cbn [iter_step]. apply IH. unfold step. apply drop_rej_head. Qed.
+
+Lemma drop_rej_suffix f : forall L, exists B, L = B ++ drop_rej f L.
+Proof.
+  induction L as [|x L IH]; [exists []; reflexivity|]. cbn. destruct (acc f x); [exists []; reflexivity|].
+  destruct IH as (B & EB). exists (x :: B). cbn. f_equal. exact EB.
+Qed.
+Lemma iter_step_suffix f : forall n L, exists A, L = A ++ iter_step f n L.
+Proof.
+  induction n as [|n IH]; intros L; [exists []; reflexivity|]. cbn [iter_step].
+  destruct L as [|x L]; [exists []; cbn; rewrite iter_step_nil; reflexivity|].
+  destruct (IH (step f (x :: L))) as (A & EA). destruct (drop_rej_suffix f L) as (B & EB).
+  exists (x :: B ++ A). cbn [app]. f_equal. rewrite <- app_assoc, <- EA. exact EB.
+Qed.
+
+Section SingleInverse.
+  Variable g : nat.
+  Variable j : journal.
+  Variable f : option flt.
+  Hypothesis Wj : wf_journal j.
+  Local Notation U := (flat j).
+
+  Local Notation CIb b := (cinv leaf_rest (leaf_ok b) b f sett_l).
+
+  (* k+1 steps back from a cursor standing on e1, when k accepted events lie between e0 and e1 *)
+  Lemma back_single fuel (k : nat) c1 (A0 P r r1 : list item) e0 e1 : (length U < fuel)%nat ->
+    CIb false c1 (e1 :: r1) -> single g j c1 -> cu_n c1 = 1%nat ->
+    itm g U = A0 ++ e0 :: r -> r = P ++ e1 :: r1 -> acc f e0 = true -> acc f e1 = true -> length (filter (acc f) P) = k ->
+    exists c2 c3, cu_offset fuel (- Z.of_nat (S k)) c1 = Some c2 /\ cu_get fuel c2 = Some (c3, Some e0).
+  Proof.
+    intros Hf I1' Sg1 N1c EV Er Ha Ha1 HlP.
+    assert (HL1 : (length (e1 :: r1) < fuel)%nat).
+    { assert (Hv : length (itm g U) = length U) by (unfold itm; apply map_length).
+      rewrite EV, Er in Hv. rewrite !app_length in Hv. cbn [length] in *. rewrite app_length in Hv. cbn [length] in Hv. lia. }
+    (* Offset(-k): settling Get, SetBackward, iterateToPos (no-op), k steps back, SetBackward, iterateToPos (no-op) *)
+    unfold cu_offset. destruct (Z.eqb_spec (- Z.of_nat (S k)) 0); [lia|]. destruct (Z.gtb_spec (- Z.of_nat (S k)) 0); [lia|].
+    replace (Z.to_nat (- - Z.of_nat (S k))) with (S k) by lia.
+    destruct (cu_get_spec leaf_rest (leaf_ok false) false (leaf_get_spec false) (leaf_next_spec false) f sett_l (sett_l_get false) _ fuel c1 I1' HL1)
+      as (c1' & G1' & I1'' & N1' & St1' & _).
+    assert (D1 : drop_rej f (e1 :: r1) = e1 :: r1) by (cbn; rewrite Ha1; reflexivity). rewrite D1 in *. rewrite G1'. cbn [hd_error].
+    assert (Sg1' : single g j c1') by (eapply single_get; eassumption).
+    assert (Nc1 : cu_n c1' = 1%nat) by congruence.
+    unfold iterate_to_pos at 1. unfold cu_set_backward at 1, cu_with_tree at 1. cbn [cu_n]. rewrite Nc1. cbn [Nat.leb orb].
+    destruct (single_flip_spec g j f false c1' _ I1'' Sg1' St1') as (q1 & Eq1 & Rq1 & I2). cbn [negb] in I2.
+    assert (Hq1 : q1 < total j).
+    { destruct (Z_lt_dec q1 (total j)); [assumption|]. rewrite rest_at_fwd_end in Eq1 by (unfold total in *; lia). discriminate. }
+    replace (Z.min q1 (total j - 1)) with q1 in I2 by lia.
+    destruct (rest_at_zip U q1) as (x1 & Hb1 & Hf1 & HU1); [unfold total in *; lia|].
+    rewrite Hf1 in Eq1. cbn [itm map] in Eq1. injection Eq1 as Ex1 Er1.
+    rewrite Hb1 in I2. cbn [itm map] in I2. rewrite <- Ex1 in I2.
+    set (c2 := cu_set_backward true c1') in *.
+    assert (Sg2 : single g j c2) by (apply single_flip; exact Sg1').
+    assert (HL2 : (length (e1 :: itm g (rev (firstn (Z.to_nat q1) U))) < fuel)%nat).
+    { cbn [length]. unfold itm. rewrite map_length, rev_length, firstn_length. unfold total in Hq1. lia. }
+    destruct (offset_loop_spec leaf_rest (leaf_ok true) true (leaf_get_spec true) (leaf_next_spec true) f sett_l (sett_l_get true) (S k) _ fuel c2 (cu_current_pos c1') I2 HL2)
+      as (c3 & p3 & G3 & I3 & N3 & S3).
+    rewrite G3.
+    assert (Sg3 : single g j c3) by (eapply single_offset_loop; eassumption).
+    destruct (S3 ltac:(discriminate)) as (St3 & _).
+    assert (Nc3 : cu_n c3 = 1%nat) by (rewrite N3; unfold c2, cu_set_backward, cu_with_tree; cbn [cu_n]; exact Nc1).
+    unfold iterate_to_pos. unfold cu_set_backward at 1, cu_with_tree at 1. cbn [cu_n]. rewrite Nc3. cbn [Nat.leb orb].
+    (* the backward list: e1 :: rev P ++ e0 :: rev A0; k+1 steps lead to e0 *)
+    assert (EA1 : itm g (firstn (Z.to_nat q1) U) = A0 ++ e0 :: P).
+    { assert (E' : itm g U = itm g (firstn (Z.to_nat q1) U) ++ e1 :: r1).
+      { rewrite HU1 at 1. unfold itm. rewrite map_app. cbn [map]. fold (itm g). rewrite Ex1. f_equal. f_equal. symmetry; exact Er1. }
+      rewrite EV, Er in E'. rewrite app_comm_cons, app_assoc in E'. apply app_inv_tail in E'. symmetry. exact E'. }
+    assert (ER1 : itm g (rev (firstn (Z.to_nat q1) U)) = rev P ++ e0 :: rev A0).
+    { transitivity (rev (itm g (firstn (Z.to_nat q1) U))); [unfold itm; apply map_rev|]. rewrite EA1, rev_app_distr. cbn [rev]. rewrite <- app_assoc. reflexivity. }
+    change (map (fun e : ev => (e, g)) (rev (firstn (Z.to_nat q1) U))) with (itm g (rev (firstn (Z.to_nat q1) U))) in I3.
+    rewrite ER1 in I3. cbn [iter_step] in I3. unfold step in I3. cbn [tl] in I3.
+    pose proof (seek_spec f k (rev P ++ e0 :: rev A0)) as Sk2.
+    destruct (iter_step f k (drop_rej f (rev P ++ e0 :: rev A0))) as [|x W] eqn:E3.
+    { rewrite filter_app in Sk2. cbn [filter] in Sk2. rewrite Ha in Sk2. rewrite app_length, filter_rev_length in Sk2. cbn [length] in Sk2. lia. }
+    destruct Sk2 as (P2 & E2 & Hx & Hl2).
+    destruct (split_unique f (rev P) P2 (rev A0) W e0 x E2 Ha Hx) as (_ & <- & <-); [rewrite filter_rev_length; lia|].
+    (* SetBackward(false) on e0: the next Get returns it *)
+    destruct (single_flip_spec g j f true c3 _ I3 Sg3 St3) as (q3 & Eq3 & Rq3 & I4). cbn [negb] in I4.
+    assert (Hq3 : 0 <= q3).
+    { destruct (Z_le_dec 0 q3); [assumption|]. rewrite rest_at_bwd_end in Eq3 by lia. discriminate. }
+    destruct (rest_at_zip U q3) as (x3 & Hb3 & Hf3 & _); [unfold total in *; lia|].
+    rewrite Hb3 in Eq3. cbn [itm map] in Eq3. injection Eq3 as Ex3 _.
+    replace (Z.max q3 0) with q3 in I4 by lia. rewrite Hf3 in I4. cbn [itm map] in I4. rewrite <- Ex3 in I4.
+    destruct (cu_get_spec leaf_rest (leaf_ok false) false (leaf_get_spec false) (leaf_next_spec false) f sett_l (sett_l_get false) _ fuel _ I4)
+      as (c4 & G4 & _).
+    { cbn [length]. unfold itm. rewrite map_length, skipn_length. unfold total in Rq3. lia. }
+    cbn [drop_rej] in G4. rewrite Ha in G4. cbn [hd_error] in G4.
+    eexists _, c4. split; [reflexivity|exact G4].
+  Qed.
+
+  (* From a cursor standing on the event e0 (a Get just returned it): Offset(+k) and, if that stayed inside the data
+     (a next event e1 exists there), Offset(-k) leads back: the next Get returns e0 again. *)
+  Lemma inverse_single fuel (k : nat) c e0 r : (length U < fuel)%nat -> (1 <= k)%nat ->
+    CIb false c (e0 :: r) -> acc f e0 = true -> single g j c -> sett_l (cu_tree c) -> cu_n c = 1%nat ->
+    exists c1, cu_offset fuel (Z.of_nat k) c = Some c1 /\ CIb false c1 (iter_step f k (e0 :: r)) /\
+      forall e1 r1, iter_step f k (e0 :: r) = e1 :: r1 ->
+        exists c2 c3, cu_offset fuel (- Z.of_nat k) c1 = Some c2 /\ cu_get fuel c2 = Some (c3, Some e0).
+  Proof.
+    intros Hf Hk I0 Ha Sg0 St0 N0.
+    (* where the cursor stands *)
+    destruct Sg0 as (s0 & E0). pose proof I0 as (W0 & C0 & _). rewrite E0 in W0, C0. cbn [wf leaf_ok] in W0. destruct W0 as (Inv0 & B0).
+    change (itm g (rest_at (flat j) (j_bk s0) (lr_pos j s0)) = e0 :: r) in C0. rewrite B0 in C0.
+    assert (Hlen : forall b p, (length (itm g (rest_at U b p)) <= length U)%nat).
+    { intros b p. unfold itm. rewrite map_length. unfold rest_at. destruct b; [rewrite rev_length, firstn_length; lia|rewrite skipn_length; lia]. }
+    assert (HL0 : (length (e0 :: r) < fuel)%nat) by (rewrite <- C0; pose proof (Hlen false (lr_pos j s0)); lia).
+    (* Offset(+k) *)
+    unfold cu_offset at 1. destruct (Z.eqb_spec (Z.of_nat k) 0); [lia|]. destruct (Z.gtb_spec (Z.of_nat k) 0); [|lia]. rewrite Nat2Z.id.
+    destruct (offset_loop_spec leaf_rest (leaf_ok false) false (leaf_get_spec false) (leaf_next_spec false) f sett_l (sett_l_get false) k _ fuel c None I0 HL0)
+      as (c1 & p1 & G1 & I1 & N1 & S1).
+    rewrite G1. cbn [option_map fst]. exists c1. split; [reflexivity|]. split; [exact I1|]. intros e1 r1 E1.
+    assert (Sg1 : single g j c1) by (eapply single_offset_loop; [exists s0; exact E0|exact G1]).
+    destruct (S1 ltac:(lia)) as (St1 & _).
+    (* the lists: V = A0 ++ e0 :: P ++ e1 :: r1 with k-1 accepted events in P *)
+    destruct k as [|k]; [lia|]. cbn [iter_step] in E1. unfold step in E1. cbn [tl] in E1.
+    pose proof (seek_spec f k r) as Sk. rewrite E1 in Sk. destruct Sk as (P & Er & Ha1 & HlP).
+    assert (I1' : CIb false c1 (e1 :: r1)) by (cbn [iter_step] in I1; unfold step in I1; cbn [tl] in I1; rewrite E1 in I1; exact I1).
+    assert (EV : itm g U = itm g (firstn (Z.to_nat (lr_pos j s0)) U) ++ e0 :: r).
+    { rewrite <- C0. unfold rest_at, itm. rewrite <- map_app, firstn_skipn. reflexivity. }
+    apply (back_single fuel k c1 _ P r r1 e0 e1 Hf I1' Sg1 ltac:(congruence) EV Er Ha Ha1 HlP).
+  Qed.
+
+  (* the same through the operations a client performs: Offset(+i), Get = e0, Offset(+k), Get = e1 (inside the data),
+     Offset(-k), Get: e0 again *)
+  Lemma inverse_script fuel (i k : nat) ca cb cc cd e0 e1 : (length U < fuel)%nat -> (1 <= k)%nat ->
+    let c0 := mkCur (MLeaf g (LR j (jit_at 0 0))) f None false 1 in
+    cu_offset fuel (Z.of_nat i) c0 = Some ca -> cu_get fuel ca = Some (cb, Some e0) ->
+    cu_offset fuel (Z.of_nat k) cb = Some cc -> cu_get fuel cc = Some (cd, Some e1) ->
+    exists ce cf, cu_offset fuel (- Z.of_nat k) cd = Some ce /\ cu_get fuel ce = Some (cf, Some e0).
+  Proof.
+    intros Hf Hk c0 Ga Gb Gc Gd.
+    assert (Inv0 : lr_inv j (jit_at 0 0)) by (split; [exact Wj|cbn; unfold MaxU64, MaxU32; lia]).
+    pose proof (single_cinv g j f false (jit_at 0 0) None 1 Inv0 eq_refl) as I0.
+    rewrite (lr_pos_head j Wj), rest_at_fwd_neg in I0 by lia. fold c0 in I0.
+    assert (HU : length (itm g U) = length U) by (unfold itm; apply map_length).
+    assert (Hit : forall n L, (length (iter_step f n L) <= length L)%nat).
+    { induction n as [|n IH]; intros L; [cbn; lia|]. cbn [iter_step]. pose proof (IH (step f L)). pose proof (step_length f L). lia. }
+    (* Offset(+i) *)
+    assert (Pa : exists La, CIb false ca La /\ single g j ca /\ cu_n ca = 1%nat /\ exists A, itm g U = A ++ La).
+    { unfold cu_offset in Ga. destruct i as [|i].
+      - cbn in Ga. injection Ga as <-. exists (itm g U). split; [exact I0|]. split; [exists (jit_at 0 0); reflexivity|]. split; [reflexivity|]. exists []. reflexivity.
+      - destruct (Z.eqb_spec (Z.of_nat (S i)) 0); [lia|]. destruct (Z.gtb_spec (Z.of_nat (S i)) 0); [|lia]. rewrite Nat2Z.id in Ga.
+        destruct (offset_loop_spec leaf_rest (leaf_ok false) false (leaf_get_spec false) (leaf_next_spec false) f sett_l (sett_l_get false) (S i) _ fuel c0 None I0)
+          as (c1 & p1 & G1 & I1 & N1 & _); [lia|].
+        rewrite G1 in Ga. cbn in Ga. injection Ga as <-. eexists. split; [exact I1|].
+        split; [eapply single_offset_loop; [|exact G1]; exists (jit_at 0 0); reflexivity|]. split; [exact N1|].
+        apply iter_step_suffix. }
+    destruct Pa as (La & Ia & Sga & Na & A & EA).
+    assert (HLa : (length La < fuel)%nat) by (rewrite EA, app_length in HU; lia).
+    (* Get = e0 *)
+    destruct (cu_get_spec leaf_rest (leaf_ok false) false (leaf_get_spec false) (leaf_next_spec false) f sett_l (sett_l_get false) La fuel ca Ia HLa)
+      as (cb' & Gb' & Ib & Nb & Sb & _).
+    rewrite Gb' in Gb. injection Gb as <- Hh. pose proof (drop_rej_head f La) as Ha.
+    destruct (drop_rej f La) as [|x r] eqn:Ed; [discriminate|]. cbn in Hh. injection Hh as ->.
+    destruct (drop_rej_split f La e0 r Ed) as (P0 & EL & _ & _).
+    assert (Sgb : single g j cb') by (eapply single_get; eassumption).
+    assert (HLb : (length (e0 :: r) < fuel)%nat) by (pose proof (drop_rej_length f La); rewrite Ed in *; lia).
+    (* Offset(+k) *)
+    unfold cu_offset in Gc. destruct (Z.eqb_spec (Z.of_nat k) 0); [lia|]. destruct (Z.gtb_spec (Z.of_nat k) 0); [|lia]. rewrite Nat2Z.id in Gc.
+    destruct (offset_loop_spec leaf_rest (leaf_ok false) false (leaf_get_spec false) (leaf_next_spec false) f sett_l (sett_l_get false) k _ fuel cb' None Ib HLb)
+      as (c1 & p1 & G1 & I1 & N1 & _).
+    rewrite G1 in Gc. cbn in Gc. injection Gc as <-.
+    assert (Sgc : single g j c1) by (eapply single_offset_loop; eassumption).
+    (* Get = e1 *)
+    destruct (cu_get_spec leaf_rest (leaf_ok false) false (leaf_get_spec false) (leaf_next_spec false) f sett_l (sett_l_get false) _ fuel c1 I1)
+      as (cd' & Gd' & Id & Nd & _); [pose proof (Hit k (e0 :: r)); lia|].
+    rewrite Gd' in Gd. injection Gd as <- Hh.
+    rewrite (drop_rej_settled f) in Id, Hh by (apply iter_step_head; exact Ha).
+    destruct k as [|k]; [lia|]. cbn [iter_step] in Id, Hh. unfold step in Id, Hh. cbn [tl] in Id, Hh.
+    pose proof (seek_spec f k r) as Sk. destruct (iter_step f k (drop_rej f r)) as [|y r1] eqn:E1; [discriminate|]. cbn in Hh. injection Hh as ->.
+    destruct Sk as (P & Er & Ha1 & HlP).
+    assert (Sgd : single g j cd') by (eapply single_get; eassumption).
+    apply (back_single fuel k cd' (A ++ P0) P r r1 e0 e1 Hf Id Sgd ltac:(congruence)); auto.
+    rewrite EA, EL, <- app_assoc. reflexivity.
+  Qed.
+End SingleInverse.
